@@ -14,6 +14,8 @@ namespace SquidModel.Cache.Collapse
 @[simp] theorem setE_nextE (s : State) (e : Nat) (ent : Entry) : (setE s e ent).nextE = s.nextE := rfl
 @[simp] theorem setE_nextC (s : State) (e : Nat) (ent : Entry) : (setE s e ent).nextC = s.nextC := rfl
 @[simp] theorem setE_cf (s : State) (e : Nat) (ent : Entry) : (setE s e ent).cf = s.cf := rfl
+@[simp] theorem setE_relFirst (s : State) (e : Nat) (ent : Entry) : (setE s e ent).relFirst = s.relFirst := rfl
+@[simp] theorem setC_relFirst (s : State) (c : Nat) (cl : Client) : (setC s c cl).relFirst = s.relFirst := rfl
 @[simp] theorem setC_clients (s : State) (c : Nat) (cl : Client) (x : Nat) :
     (setC s c cl).clients x = if x = c then some cl else s.clients x := rfl
 @[simp] theorem setC_entries (s : State) (c : Nat) (cl : Client) : (setC s c cl).entries = s.entries := rfl
@@ -41,21 +43,22 @@ def Entry.core (e : Entry) : Core :=
 /-- `s'` differs from `s` only in key flags and the public slot -/
 structure Frame (s s' : State) : Prop where
   cf : s'.cf = s.cf
+  relFirst : s'.relFirst = s.relFirst
   clients : s'.clients = s.clients
   nextE : s'.nextE = s.nextE
   nextC : s'.nextC = s.nextC
   core : ∀ e, (s'.entries e).map Entry.core = (s.entries e).map Entry.core
 
-theorem Frame.refl (s : State) : Frame s s := ⟨rfl, rfl, rfl, rfl, fun _ => rfl⟩
+theorem Frame.refl (s : State) : Frame s s := ⟨rfl, rfl, rfl, rfl, rfl, fun _ => rfl⟩
 
 theorem Frame.trans {a b c : State} (h1 : Frame a b) (h2 : Frame b c) : Frame a c :=
-  ⟨h2.cf.trans h1.cf, h2.clients.trans h1.clients, h2.nextE.trans h1.nextE, h2.nextC.trans h1.nextC,
+  ⟨h2.cf.trans h1.cf, h2.relFirst.trans h1.relFirst, h2.clients.trans h1.clients, h2.nextE.trans h1.nextE, h2.nextC.trans h1.nextC,
    fun e => (h2.core e).trans (h1.core e)⟩
 
 /-- changing only key flags of one entry is a frame step -/
 theorem frame_setE_flags (s : State) (e : Nat) (ent ent' : Entry) (p : Option Nat) (he : s.entries e = some ent)
     (hc : ent'.core = ent.core) : Frame s { setE s e ent' with pub := p } := by
-  refine ⟨rfl, rfl, rfl, rfl, ?_⟩
+  refine ⟨rfl, rfl, rfl, rfl, rfl, ?_⟩
   intro x
   by_cases hx : x = e
   · subst hx; simp [he, hc]
